@@ -206,6 +206,9 @@ pub struct Scenario {
     /// with manual_getinfo: polls after the startup one are never answered (a stuck getinfo)
     #[serde(default)]
     pub freeze_polls: bool,
+    /// payments for which an earlier lifetime left a Pending record behind (the first lifetime is then a restart)
+    #[serde(default)]
+    pub initial_pending: Vec<u8>,
 }
 
 #[derive(Clone, Copy, Debug, Serialize, Deserialize, PartialEq, Eq, Hash)]
@@ -889,7 +892,7 @@ pub fn step_strategy(p: &Profile) -> BoxedStrategy<Step> {
         w_tick => prop_oneof![3 => Just(1u8), 2 => 1u8..=13, 1 => Just(13u8), 1 => Just(25u8)].prop_map(Step::Tick),
         height_w => (0u32..3000).prop_map(Step::Block),
         height_w => (0u32..3000).prop_map(Step::Height),
-        crash_w => (prop_oneof![3 => Just(0u8), 2 => 1u8..=13, 1 => Just(30u8)], any::<bool>(), any::<bool>())
+        crash_w => (prop_oneof![6 => Just(0u8), 4 => 1u8..=13, 2 => Just(30u8), 1 => Just(255u8), 1 => Just(254u8)], any::<bool>(), any::<bool>())
             .prop_map(|(down, lose_last, reverse)| Step::Crash { down, lose_last, reverse }),
     ]
     .boxed()
@@ -942,7 +945,7 @@ pub fn scenario_strategy(prof: Profile) -> BoxedStrategy<Scenario> {
                             htlcs.swap(i, j);
                         }
                     }
-                    Scenario { cfg, payments, htlcs, steps, write_faults, read_faults, start_height, tokio_seed, c16_profile: false, probe, direct: vec![], initial_parts: vec![], manual_getinfo: false, crash_at: vec![], freeze: None, hold, freeze_polls: false }
+                    Scenario { cfg, payments, htlcs, steps, write_faults, read_faults, start_height, tokio_seed, c16_profile: false, probe, direct: vec![], initial_parts: vec![], manual_getinfo: false, crash_at: vec![], freeze: None, hold, freeze_polls: false, initial_pending: vec![] }
                 },
             )
         })
